@@ -99,6 +99,26 @@ func c20CheckWith(c *Ctx, body []byte, useGzip bool, desc map[string]any, cf *c2
 			h := len(body) / 2
 			wire = append(gz(body[:h]), gz(body[h:])...)
 		}
+		if len(body) >= 2 && len(body)%3 == 1 {
+			// every third length: one member with a sync-flush point after the first byte and one further inside
+			// (the decompressor hands the body out in short reads that end at these points)
+			var buf bytes.Buffer
+			w := gzip.NewWriter(&buf)
+			p := len(body) / 3
+			if p > 300 {
+				p = 300
+			}
+			if p < 1 {
+				p = 1
+			}
+			_, _ = w.Write(body[:1])
+			_ = w.Flush()
+			_, _ = w.Write(body[1 : 1+p])
+			_ = w.Flush()
+			_, _ = w.Write(body[1+p:])
+			_ = w.Close()
+			wire = buf.Bytes()
+		}
 	}
 	var out []byte
 	var outHdr http.Header
@@ -393,7 +413,7 @@ func init() {
 		c.Run.Set("window_cases", int64(len(wcases)))
 		c.Run.Set("evaluations", evals)
 		c.Run.Set("distinct_nontrivial", int64(len(seqs)+len(wcases)+1024))
-		c.Run.Set("rule", fmt.Sprintf("every body of <=%d tokens over %d tokens (4 markers x 3 letter cases, near-misses, filler, NUL, 0x80, valid UTF-8, 0xFF, CRLF); every marker at offsets 16375..16386 with 0/1/7/100 high bytes in the filler and a second marker in the tail; all 256 byte values alone, before and after a marker; each plain and gzip-encoded; all bodies distinct", maxTok, len(toks)))
+		c.Run.Set("rule", fmt.Sprintf("every body of <=%d tokens over %d tokens (4 markers x 3 letter cases, near-misses, filler, NUL, 0x80, valid UTF-8, 0xFF, CRLF); every marker at offsets 16375..16386 with 0/1/7/100 high bytes in the filler and a second marker in the tail; all 256 byte values alone, before and after a marker; each plain and gzip-encoded (every third length as two gzip members, every third with two sync-flush points: short reads of the decompressed body); all bodies distinct", maxTok, len(toks)))
 		c.Run.Set("exhaustive", exhaustive)
 		c.Run.Assumption("with bytes >= 0x80 before the marker the 'inspected prefix' is ambiguous between original and transcoded offsets; both outcomes are accepted in that band only")
 		c.Run.Assumption("the hook builds a Server with a fixed creation time and injection host; the tag is what buildInjectionCode renders for that session")
